@@ -4,8 +4,8 @@ import TacklerModel.Model.Config
 
 All statements are about `Config.effective env file cli`, the transliteration of the configuration
 path of the `tackler` binary (see the table in `Model/Config.lean`), for **all** file values, option
-sets and environments.  The model is the tree with the fixes F15, F191, F192 applied; the behaviour of
-the pinned tree at those three points is kept below as `*_pinned` definitions with witnesses.
+sets and environments.  The model is the tree with the fixes F15, F191, F192, F193 applied; the behaviour of
+the pinned tree at those points is kept below as `*_pinned` definitions with witnesses.
 
 `namesSimple file cli` is the domain in which identifier validity (library code) is known; outside it
 `effective` answers `undef` and nothing is claimed.
@@ -1517,6 +1517,27 @@ theorem F192_witness_pinned :
     inputOfStorage envX { cfgSEK with fs := some ("/d", ".txn") } .fs = .ok (.fs "/d" "txn") := by decide
 theorem F192_fixed :
     getInputType envX cfgSEK { inputFsDir := some "/d", inputFsExt := some ".txn" } = .ok (.fs "/d" "txn") := by decide
+
+/-- F193, pinned clap attributes: `--input.fs.ext` has no conflicts of its own, and "`ext` requires `dir`" is
+    waived when the missing `dir` conflicts with a present option (`Validator::is_missing_required_ok`) -/
+def clapAccepts_pinned (c : CliOpts) : Bool :=
+  clapValues c &&
+  !((c.inputFile.isSome && (c.inputStorage.isSome || fsAny c || gitAny c)) ||
+    (c.inputStorage.isSome && (fsAny c || gitAny c)) ||
+    (c.inputFsDir.isSome && gitAny c) ||
+    (c.inputGitRef.isSome && c.inputGitCommit.isSome)) &&
+  ((!c.inputFsDir.isSome || c.inputFsExt.isSome) &&
+   (!c.inputFsExt.isSome || c.inputFsDir.isSome || c.inputFile.isSome || c.inputStorage.isSome || gitAny c) &&
+   (!c.inputGitRepo.isSome || (c.inputGitDir.isSome && (c.inputGitRef.isSome || c.inputGitCommit.isSome))) &&
+   (!c.inputGitDir.isSome || c.inputGitRepo.isSome))
+
+/-- F193 witness: the pinned tree accepts `--input.fs.ext jrnl --input.git.ref side` and then ignores the
+    extension (the input is the file's git storage with its own suffix); the repaired attributes reject it -/
+theorem F193_witness_pinned :
+    clapAccepts_pinned { inputFsExt := some "jrnl", inputGitRef := some "side" } = true ∧
+    (configFrom envX fileX).bind (fun cfg => getInputType envX cfg { inputFsExt := some "jrnl", inputGitRef := some "side" }) =
+      .ok (.git "/w/conf/repo.git" "txns" (.reference "side") "txn") ∧
+    clapAccepts { inputFsExt := some "jrnl", inputGitRef := some "side" } = false := by decide
 
 end C19
 end Tackler
